@@ -21,7 +21,7 @@ ASSUMPTIONS = ['reference model vworld.expected_tests written from the '
                'statement; str(test) of the running interpreter',
                'decorator-skipped tests produce no fact and are compared in '
                'the listing only']
-FLOORS = {'list_runs_with_j': 20, 'seq_runs': 100, 'list_runs': 100, 'par_runs': 40,
+FLOORS = {'overlapping_package_cases': 10, 'list_runs_with_j': 20, 'seq_runs': 100, 'list_runs': 100, 'par_runs': 40,
           'tests_judged': 1500, 'proper_subset_cases': 60,
           'order_compared_layers': 150, 'resumed_child_cases': 10,
           'repeat_cases': 20}
@@ -68,6 +68,16 @@ def gen_opts(rng, spec, tids, mods):
         o['unit'] = True
     elif r < 0.16:
         o['non_unit'] = True
+    if rng.random() < 0.2:
+        # -s: overlapping packages (a package and one of its sub-packages,
+        # a package twice) must still select every test exactly once
+        m = rng.choice(mods).split('.')
+        top = m[0]
+        # (the last component is the module file, everything before it
+        # is a package directory)
+        sub = '.'.join(m[:rng.randint(1, max(1, len(m) - 1))])
+        o['package'] = rng.choice([[top, sub], [sub, top], [top, top],
+                                   [sub], [top, sub, sub]])
     if rng.random() < 0.25:
         o['repeat'] = rng.randint(2, 3)
     if rng.random() < 0.35:
@@ -225,6 +235,10 @@ def run_case(case):
         vworld.destroy(root)
     if rep > 1:
         C('repeat_cases')
+    if opts.get('package'):
+        C('package_cases')
+        if len(set(opts['package'])) > 1:
+            C('overlapping_package_cases')
     sig = None
     proper = 0 < len(want_ids) < len(tids)
     if proper:
